@@ -9,6 +9,9 @@ def main(tier):
     n = len(catalogue.builders(tier, SEED))
     runner.run(rep, 'VacancyMediated::contract', V.w_vacancy, [(cid, tier, SEED, 'C08') for cid in V.vac_ids(tier)], 'onsager/OnsagerCalc.py::VacancyMediated.Lij')
 
+    from contracts import degree_c
+    degree_c.run(rep, ['VacancyMediated.Lij'], replay=degree_c.replay_lij)
+
     from vf import extract
     for rel, q in [('onsager/OnsagerCalc.py', 'VacancyMediated.Lij')]:
         try:
